@@ -2,7 +2,7 @@
     under the case's schedule and the synchronous reference, apply the oracle to what the
     implementation did, compare.  Executable only (extracted / vm_compute). *)
 From Coq Require Import List NArith ZArith Bool String.
-From ApiFu Require Import Base.Sexp Fut.Plan Fut.Future Fut.ExecAsync Fut.ExecSync.
+From ApiFu Require Import Base.Sexp Fut.Plan Fut.Future Fut.ExecAsync Fut.ExecSync Fut.FutSpec.
 Import ListNotations.
 Open Scope string_scope.
 
@@ -227,13 +227,7 @@ Fixpoint paths_perm (a b : list (list pelem)) : bool :=
   end.
 
 (** ** The oracle: what C02 demands of the implementation's output, given the plan *)
-Fixpoint has_blank_key (j : json) : bool :=
-  match j with
-  | JList l => existsb has_blank_key l
-  | JObj kvs => existsb (fun kv => match fst kv with [] => true | _ => false end || has_blank_key (snd kv)) kvs
-  | _ => false
-  end.
-
+(** [has_blank_key] is Fut/FutSpec.v's *)
 Fixpoint has_dup_err (l : list (list pelem * nat)) : bool :=
   match l with
   | [] => false
